@@ -39,7 +39,7 @@ func TestC11(t *testing.T) {
 	master := newRng(seed())
 	ncases := envInt("VERIF_CASES", 120)
 	only := envInt("VERIF_CASE", -1)
-	// corpus: minimised regression inputs of repaired defects always run first (case ids 0..2)
+	// corpus: minimised regression inputs of repaired defects and the automatic-fill scenarios always run first (case ids 0..7)
 	for ci := 0; ci < c11NCorpus; ci++ {
 		if only < 0 || only == ci {
 			c11LimitCorpus(t, f, tr, ci)
